@@ -144,7 +144,9 @@ def keep(sid, src, res, recheck):
                 "source": "independent sub-agent given only the property text and a scratch worktree"}
     else:
         meta = json.load(open(os.path.join(dst, "meta.json")))
-        if res.get("apply") == "ok" and not res.get("applies_cleanly"):
+        # a patch that needed fuzz is only taken over when the demonstration still fails with it: `patch -F3` may put
+        # a hunk of pure additions in the wrong place (it did, once: C18a)
+        if res.get("apply") == "ok" and not res.get("applies_cleanly") and res.get("demo_patched", 0) != 0:
             open(os.path.join(dst, "patch.diff"), "w").write(res["rebased_patch"])
     meta["rechecked"] = {"head": res["head"], "patch_applies": res.get("apply"), "demo_fails_with_patch": res.get("demo_patched", 0) != 0,
                          "demo_passes_on_clean_tree": res.get("demo_clean") == 0,
